@@ -385,6 +385,22 @@ Theorem access_found_wins : forall eif im ii key m d w,
     run_access eif im ii key m = AFound d w.
 Proof. intros. unfold run_access. rewrite H, access_chain_order, H0. reflexivity. Qed.
 
+(* @access takes precedence over the iterator-module fallback (and over @next / @iterator), for
+   EVERY key set and oracle: x.to_tuple() / x.reversed() run @access with (self, key) and nothing else *)
+Theorem access_override_precedes_iterator_fallback :
+  forall (o : oracle) (ks : keyset) (u : uop) (r : kind),
+    u = UToTuple \/ u = UReversed ->
+    has k_access ks = true ->
+    fst (dispatch o (OpUnary u) (VMap ks) r) = [Ev L k_access WL [WKey]]
+    /\ forall k, dispatch o (OpUnary u) (VMap ks) r <> ([Ev L k WL []], OIter 2 (Some (L, k))).
+Proof.
+  intros o ks u r Hu Hacc.
+  assert (Hne : ks <> []) by (intro; subst; discriminate).
+  destruct ks as [|k0 ks']; [congruence|].
+  destruct Hu; subst; unfold dispatch, run_unary, run_to_tuple, run_reversed; rewrite Hacc;
+    unfold access_override_call; split; try reflexivity; intros k; destruct (o L k_access); discriminate.
+Qed.
+
 (* ------------------------------------------------------------------ 5. shared metamaps *)
 
 Lemma kind_of_with_meta : forall h d m, kind_of h (with_meta d m) = kind_of h m.
